@@ -94,7 +94,7 @@ def block(btype, payload):
     return bytes([0x55, 0x3C, btype, len(payload)]) + payload + bytes([checksum(btype, payload), 0x55])
 
 
-def write_file(f, leader=128, blank=0, block_sizes=None, data_leader=None, prefix=b""):
+def write_file(f, leader=128, blank=0, block_sizes=None, data_leader=None, prefix=b"", inter=0):
     """Peer writer: one recording.  block_sizes: list of payload sizes (cycled) or None for 255.
     prefix: extra filler ($00/$55 in any mix) in front of the recording, e.g. leader, blank, leader."""
     out = bytearray(prefix)
@@ -114,6 +114,8 @@ def write_file(f, leader=128, blank=0, block_sizes=None, data_leader=None, prefi
         k += 1
         if gap == 0xFF and not first:
             out += bytes(blank) + bytes([0x55]) * dl
+        elif inter and not first:
+            out += bytes([0x55]) * inter        # some writers put a short leader between blocks whatever the gap flag says
         out += block(0x01, data[pos:pos + size])
         pos += size
         first = False
